@@ -614,12 +614,27 @@ def dict_resolver(env):
                     " to select. It will return the proper way to refer to it."
                 )
 
+            candidates = [
+                fn for fn in codefind.get_functions(co) if inspect.isfunction(fn)
+            ]
             funcs = [
                 fn
-                for fn in codefind.get_functions(co)
-                if inspect.isfunction(fn)
-                and not getattr(fn, "__ptera_discard__", False)
+                for fn in candidates
+                if not getattr(fn, "__ptera_discard__", False)
             ]
+            if not funcs:
+                # The reference may have been re-pointed at the original
+                # code (e.g. because the enclosing function was compiled
+                # again) while the function runs an instrumented variant:
+                # the pristine copies kept by ptera know their function.
+                targets = []
+                for fn in candidates:
+                    target = getattr(fn, "__ptera_target__", None)
+                    if target is not None and all(
+                        target is not t for t in targets
+                    ):
+                        targets.append(target)
+                funcs = targets
             if not funcs:  # pragma: no cover
                 raise Exception(f"Reference `{x}` cannot be resolved.")
             elif len(funcs) > 1:  # pragma: no cover
